@@ -1,5 +1,6 @@
 import H264.SpsC04
 import H264.SpsExact
+import H264.Tables2
 /-! # C04 — SPS parsing recovers exactly the values encoded per H.264 7.3.2.1 / Annex E
 
 Model: `Sps.parseSps` mirrors `SeqParameterSet::from_bits` and all its sub-readers (same order of reads and checks).
@@ -51,5 +52,30 @@ theorem profile_lists_agree (p : Nat) (h : mvcOnlyProfile p = false) : hasChroma
 /-- non-vacuity: a concrete 4:2:0 High-profile field-coded SPS with POC type 1, cropping, VUI and a NAL HRD satisfies
 `WF` (proved next to the forward theorem, `Sps.sample`) and is outside the excluded ids -/
 example : mvcOnlyProfile sample.profileIdc = false := by decide
+
+/-! ### tables of the running code (graphs extracted through `SeqParameterSet::from_bits` on every run) -/
+
+/-- the profile list that decides whether chroma information is read is, in the running code, the model's list — for
+all 256 `profile_idc` values (regenerated and re-decided by the kernel on every run) -/
+theorem code_profile_list_is_model_list : Generated.hasChroma.length = 256 ∧
+    ∀ b : Fin 256, Generated.hasChroma.getD b.val 9 = (if Sps.hasChromaInfo b.val then 1 else 0) :=
+  Tables2.hasChroma_eq_model
+
+/-- every `aspect_ratio_idc` is recovered (no two coded values are parsed to the same value) and the reported sample
+aspect ratio is Table E-1; `Extended_SAR` returns the coded pair -/
+theorem code_aspect_ratio_table : Generated.aspect.length = 256 ∧
+    (∀ i j : Fin 256, (Generated.aspect.getD i.val (999,0,0)).1 = (Generated.aspect.getD j.val (999,0,0)).1 → i = j) ∧
+    (∀ b : Fin 256, (Generated.aspect.getD b.val (999,0,0)).1 < 998) ∧
+    (∀ b : Fin 256, (Generated.aspect.getD b.val (999,0,0)).2 =
+      (if b.val = 255 then (0x1234, 0x0567) else Tables2.tableE1 b.val)) := Tables2.aspect_table
+
+/-- `video_format` and `chroma_format_idc`: every coded value is parsed to its own distinct value -/
+theorem code_video_format_recovered : Generated.videoFormat.length = 8 ∧
+    (∀ i j : Fin 8, Generated.videoFormat.getD i.val 999 = Generated.videoFormat.getD j.val 999 → i = j) ∧
+    (∀ i : Fin 8, Generated.videoFormat.getD i.val 999 < 998) := Tables2.videoFormat_injective
+theorem code_chroma_format_recovered : Generated.chromaFormat.length = 16 ∧
+    (∀ i : Fin 4, (Generated.chromaFormat.getD i.val (0,0)).1 = 1) ∧
+    (∀ i j : Fin 4, (Generated.chromaFormat.getD i.val (0,0)).2 = (Generated.chromaFormat.getD j.val (0,0)).2 → i = j) :=
+  Tables2.chromaFormat_table
 
 end C04
